@@ -15,7 +15,7 @@ import z3
 from spec import ops
 from . import source, types as ty
 from .values import (ADict, AList, ASet, BoundMethod, BreakSignal, ClassRef, ContinueSignal, Env, FStr,
-                     ModRef, Opaque, OutOfSubset, PathEnd, PyRaise, ReturnSignal, SClosure, SFun,
+                     ModRef, OMap, Opaque, OutOfSubset, PathEnd, PyRaise, ReturnSignal, SClosure, SFun,
                      SObj, fresh_name)
 
 FEAS_TIMEOUT_MS = 3000
@@ -234,6 +234,7 @@ class Exec:
             if not cands:
                 cands = [t.cls]
             o = SObj(cands, name, lazy=True)
+            o._ftypes.update(dict(t.ftypes))
             if self.contract is not None and name in getattr(self.contract, "dynamic_types", {}):
                 o._ftypes.update(self.contract.dynamic_types[name])  # sorts of nested objects' fields, by access path
             self.inputs[name + "#obj"] = (o, t)
@@ -262,6 +263,11 @@ class Exec:
             if register:
                 self.inputs[name + "#set"] = (s, t)
             return s
+        if isinstance(t, ty.TRecord):
+            return {k: self.mk(ft, f"{name}[{k}]", register) for k, ft in t.fields}
+        if isinstance(t, ty.TObjMap):
+            self.assumptions_used.add("lookups in dict-of-objects fields are over-approximated by unconstrained objects")
+            return OMap(name, t.val)
         if isinstance(t, ty.TFun):
             sorts = [sort_of(a) for a in t.args]
             ret = t.ret
@@ -338,7 +344,7 @@ class Exec:
             raise OutOfSubset(f"class attribute {obj.name}.{attr}")
         if isinstance(obj, NS):
             return getattr(obj, attr)
-        if isinstance(obj, (AList, ADict, ASet, list, dict, set, frozenset, tuple, str)) or (
+        if isinstance(obj, (AList, ADict, ASet, OMap, list, dict, set, frozenset, tuple, str)) or (
             is_z3(obj) and z3.is_string(obj)
         ):
             return BoundMethod(obj, attr)
@@ -715,6 +721,8 @@ class Exec:
             return ops.Or(*rs) if rs else False
         if isinstance(container, ADict):
             return z3.Select(container.present, lift(item))
+        if isinstance(container, OMap):
+            return z3.Bool(fresh_name(container.name + "#has"))
         if isinstance(container, ASet):
             return z3.Select(container.member, lift(item))
         if isinstance(container, str) and isinstance(item, str):
